@@ -20,7 +20,7 @@ TITLE = 'i18n message ids, mappings, context'
 LEVEL = 'exploration'
 SHARDS = {'quick': 16, 'thorough': 16}
 FLOOR = {'quick': 1000, 'thorough': 15000}
-REQUIRED_MONITORS = {'templates-compared': 2000, 'translate-calls-compared': 3000, 'macro-layer-compared': 200, 'abandoned-settings-compared': 300,
+REQUIRED_MONITORS = {'templates-compared': 2000, 'translate-calls-compared': 3000, 'macro-layer-compared': 200, 'abandoned-settings-compared': 300, 'macro-boundary-settings-compared': 300,
                      'implicit-layer-compared': 200, 'message-objects-compared': 200}
 RULE = ('a case = (generated i18n element tree of depth <= 3 with the statements above, binding (v in {plain, hostile, empty}, '
         'lang in {it, None}), translation function in {rewriting, identity}); non-trivial iff >=1 translate call predicted; '
@@ -343,7 +343,7 @@ def layer_implicit(ctx, n):
     rng = ctx.rng
     T = make_T('rewriting')
     for case in range(n):
-        texts = [rng.choice(['Hello  world', ' padded ', 'x', '\n  multi\n  line ', 'é', 'Bonjour\xa0 !', '\u2003x\xa0']) for _ in range(rng.randint(1, 3))]
+        texts = [rng.choice(['Hello  world', ' padded ', 'x', '\n  multi\n  line ', 'é', 'Bonjour\xa0 !', '\u2003x\xa0', 'price: $$5', '$$ only']) for _ in range(rng.randint(1, 3))]
         attrs = rng.choice([None, 'title', 'TITLE', 'alt'])
         aval, aval_r = rng.choice([('Tip  text', 'Tip  text'), ('Tip ${v}', 'Tip V'), ('${v}', 'V')])
         explicit = rng.choice([None, None, '', ' tid']) if attrs else None
@@ -383,6 +383,7 @@ def layer_implicit(ctx, n):
                 out += ' %s="%s"' % (attrs, aval_r)
         out += '>'
         for i, t in enumerate(texts):
+            t = t.replace('$$', '$')        # the escape for a dollar sign is resolved before the text is a message (C06)
             if impl_t and t.strip():
                 norm = WS.sub(' ', t.strip())
                 m = re.match(r'(\s*)(.*\S)(\s*)', t, re.S)
@@ -464,6 +465,54 @@ def layer_messages(ctx, n):
 
 
 
+
+def layer_macro_boundaries(ctx, n):
+    """Settings across the boundaries of the generated code: (a) a slot filler with settings of its own inserts an object
+    (neither string nor number nor __html__) through a string: part, ${...} in CDATA and tal:content - it is offered to the
+    translation function with the FILLER's domain / context / target; (b) an ordinary template variable that happens to
+    be called target_language (or a caller whose target is None under a render-time language) does not set the language
+    inside macro bodies."""
+    from chameleon import PageTemplate
+    rng = ctx.rng
+    for case in range(n):
+        calls = []
+
+        class Obj:
+            pass
+
+        def tr(msgid, domain=None, mapping=None, context=None, target_language=None, default=None):
+            calls.append(('OBJ' if isinstance(msgid, Obj) else msgid, domain, context, target_language))
+            return 'o' if isinstance(msgid, Obj) else '[%s]' % msgid
+        kind = rng.choice(['filler-object', 'filler-object', 'variable-named-target-language', 'target-none-under-render-language'])
+        macro = '<tal:c condition="False"><p metal:define-macro="m"><b i18n:translate="">in macro</b><i metal:define-slot="s">d</i></p></tal:c>'
+        if kind == 'filler-object':
+            dc, df, cf, tf = rng.choice([None, 'dc']), rng.choice([None, 'df']), rng.choice([None, 'cf']), rng.choice([None, "'xx'"])
+            site = rng.choice(['<em tal:content="string:Dear ${mobj}"/>', '<![CDATA[${mobj}]]>', '<em tal:content="mobj"/>', '<em>${mobj}</em>'])
+            attrs = ''.join(' i18n:%s="%s"' % (k, v) for k, v in (('domain', df), ('context', cf), ('target', tf)) if v)
+            src = macro + '<div%s><u metal:use-macro="template.macros[\'m\']"><q metal:fill-slot="s"%s>%s</q></u></div>' % (
+                ' i18n:domain="dc"' if dc else '', attrs, site)
+            want = [('in macro', dc, None, None), ('OBJ', df or dc, cf, 'xx' if tf else None)]
+            kw = {'mobj': Obj()}
+        elif kind == 'variable-named-target-language':
+            src = macro + '<div tal:define="target_language \'zz\'"><u metal:use-macro="template.macros[\'m\']"/><i i18n:translate="">outside</i></div>'
+            # a variable is a variable: the language in force is the one rendering started with (none)
+            want = [('in macro', None, None, None), ('outside', None, None, None)]
+            kw = {}
+        else:
+            src = macro + '<div i18n:target="nothing"><u metal:use-macro="template.macros[\'m\']"/><i i18n:translate="">outside</i></div>'
+            want = [('in macro', None, None, None), ('outside', None, None, None)]
+            kw = {'target_language': 'de'}
+        try:
+            PageTemplate(src, translate=tr)(**kw)
+        except Exception as e:
+            calls.append('RAISED %s: %s' % (type(e).__name__, str(e).split('\n')[0][:80]))
+        ctx.mon('macro-boundary-settings-compared')
+        ctx.case(key=('boundary', kind, src[-90:]), nontrivial=True)
+        if calls != want:
+            ctx.violation('translation-settings-across-a-macro-boundary', '%s: template %r\n  calls    %r\n  expected %r' % (kind, src, calls, want),
+                          {'src': src, 'env': {'v': 'V', 'lang': None}})
+
+
 def layer_abandoned_settings(ctx, n):
     """An element that sets the domain / context / target language and is then abandoned (its body or the very
     expression of i18n:target fails, tal:on-error takes over): translations AFTER the element - and the fallback's own
@@ -534,6 +583,7 @@ def run(ctx):
     layer_implicit(ctx, 60 if ctx.quick else 300)
     layer_messages(ctx, 60 if ctx.quick else 300)
     layer_abandoned_settings(ctx, 30 if ctx.quick else 300)
+    layer_macro_boundaries(ctx, 30 if ctx.quick else 300)
 
 
 def replay(data):
